@@ -67,7 +67,8 @@ structure Env where
   digest : UInt64 := 0xcbf29ce484222325
   events : Nat := 0
   postStopWrites : Nat := 0
-  out : Array String := #[]
+  out : Array String := #[]          -- what the engine prints (info / readyok / bestmove lines)
+  log : Array String := #[]          -- ghost transcript: the printed lines interleaved with the hook events
 
 @[inline] def fnv (h w : UInt64) : UInt64 := (h ^^^ w) * 0x100000001b3
 @[inline] def i2w (x : Int) : UInt64 := x.toInt64.toUInt64
@@ -94,7 +95,10 @@ namespace Env
 def ev (cfg : Cfg) (e : Env) (words : List UInt64) (line : Unit → String) : Env :=
   if cfg.trace == 0 then e else
   let e := { e with digest := words.foldl fnv e.digest, events := e.events + 1 }
-  if cfg.trace == 2 then { e with out := e.out.push ("ev " ++ line ()) } else e
+  if cfg.trace == 2 then { e with log := e.log.push ("ev " ++ line ()) } else e
+
+/-- `print!` of one line -/
+def print (e : Env) (l : String) : Env := { e with out := e.out.push l, log := e.log.push l }
 
 def pvAt (e : Env) (row col : Nat) : Move := e.pv.getD (row * 64 + col) Move.null
 def killer (e : Env) (k ply : Nat) : Option Move := e.killers.getD (k * 64 + ply) none
@@ -116,7 +120,7 @@ def poll (cfg : Cfg) (e : Env) : Env :=
     let l := l.trimAscii.toString
     let e := { e with chan := rest }
     match firstWordLower l with
-    | "isready" => { e with out := e.out.push "readyok" }
+    | "isready" => e.print "readyok"
     | "stop" => { e with stopping := true }
     | _ => { e with deferred := e.deferred ++ [l], stopping := true }
 
@@ -329,16 +333,29 @@ def negamax (R : Rules) (cfg : Cfg) : Nat → Game → Nat → Int → Int → E
 
 def negaFuel : Nat := Gen.MAX_PLY + 2
 
-def mateOrCp (score : Int) : String :=
-  if score >= -Gen.MATE_VALUE && score < -Gen.MATE_BOUND then s!"mate {Int.tdiv (-(score + Gen.MATE_VALUE)) 2}"
-  else if score <= Gen.MATE_VALUE && score > Gen.MATE_BOUND then s!"mate {Int.tdiv (Gen.MATE_VALUE - score) 2 + 1}"
-  else s!"cp {score}"
+/-- the `score` field of an info line -/
+inductive ScoreField
+  | cp (v : Int)
+  | mate (n : Int)
+  deriving DecidableEq, Repr
+
+def ScoreField.render : ScoreField → String
+  | .cp v => s!"cp {v}"
+  | .mate n => s!"mate {n}"
+
+/-- the three-way conversion in `search` (integer division truncates, as in Rust) -/
+def scoreField (score : Int) : ScoreField :=
+  if score >= -Gen.MATE_VALUE && score < -Gen.MATE_BOUND then .mate (Int.tdiv (-(score + Gen.MATE_VALUE)) 2)
+  else if score <= Gen.MATE_VALUE && score > Gen.MATE_BOUND then .mate (Int.tdiv (Gen.MATE_VALUE - score) 2 + 1)
+  else .cp score
 
 /-- the conversion before commit 31eef30 (kept for the counterexample theorem) -/
-def mateOrCpLegacy (score : Int) : String :=
-  if score >= -Gen.MATE_VALUE && score < -Gen.MATE_BOUND then s!"mate {Int.tdiv (-(score + Gen.MATE_VALUE)) 2 - 1}"
-  else if score <= Gen.MATE_VALUE && score > Gen.MATE_BOUND then s!"mate {Int.tdiv (Gen.MATE_VALUE - score) 2 + 1}"
-  else s!"cp {score}"
+def scoreFieldLegacy (score : Int) : ScoreField :=
+  if score >= -Gen.MATE_VALUE && score < -Gen.MATE_BOUND then .mate (Int.tdiv (-(score + Gen.MATE_VALUE)) 2 - 1)
+  else if score <= Gen.MATE_VALUE && score > Gen.MATE_BOUND then .mate (Int.tdiv (Gen.MATE_VALUE - score) 2 + 1)
+  else .cp score
+
+def mateOrCp (score : Int) : String := (scoreField score).render
 
 def pvLine (e : Env) : String :=
   String.join ((List.range (e.pvLen.getD 0 0)).map fun i => (e.pvAt 0 i).toUci ++ " ")
@@ -357,7 +374,7 @@ def idLoop (R : Rules) (cfg : Cfg) (g : Game) :
     if score <= alpha || score >= beta then
       idLoop R cfg g count (cur + 1) (-Gen.INFINITY) Gen.INFINITY score e
     else
-      let e := { e with out := e.out.push (infoLine score cur e) }
+      let e := e.print (infoLine score cur e)
       idLoop R cfg g count (cur + 1) (score - 50) (score + 50) score e
 
 structure SearchResult where
@@ -377,7 +394,7 @@ def search (R : Rules) (cfg : Cfg) (g : Game) (depth : Int) (tt : TT) (rep : Rep
     (fun _ => s!"end {e.ply} {e.rep.index} {if e.stopping then 1 else 0}")
   let pv0 := e.pvAt 0 0
   let best := if pv0 == Move.null then (R.firstLegal g).getD pv0 else pv0
-  let e := { e with out := e.out.push s!"bestmove {best.toUci}" }
+  let e := e.print s!"bestmove {best.toUci}"
   (⟨best, e.nodes, score, cur - 1, !e.stopping, e.ttHits⟩, e)
 
 end Jence
